@@ -76,11 +76,13 @@ def len (s : Store) : Nat := (toList s).length
 inductive POp where
   | add (k : Nat)
   | discard (k : Nat)
+  | iterRm (ks : List Nat)      -- iterate, the consumer discards the visited element when it is in `ks`
   deriving Repr
 
 def applyP : POp → Store → Store
   | .add k, s => add k s
   | .discard k, s => discard k s
+  | .iterRm ks, s => (iterRem (fun k => decide (k ∈ ks)) s.fresh s (s.next 0)).2
 
 def runP (ops : List POp) : Store := ops.foldl (fun s op => applyP op s) empty
 
@@ -88,8 +90,20 @@ def runP (ops : List POp) : Store := ops.foldl (fun s op => applyP op s) empty
 def absP : POp → List Nat → List Nat
   | .add k, l => if k ∈ l then l else l ++ [k]
   | .discard k, l => l.erase k
+  | .iterRm ks, l => l.filter (fun k => !(decide (k ∈ ks)))
 
 def absRunP (ops : List POp) : List Nat := ops.foldl (fun l op => absP op l) []
+
+/-! observers read off the pointers, as the code does -/
+
+/-- `next(iter(self), None)` / `QuerySet.first` / `pop(last=False)`'s key: `self.end[2][0]` unless the ring is empty -/
+def ptrFirst (s : Store) : Option Nat := if s.next 0 = 0 then none else some (s.key (s.next 0))
+
+/-- `next(reversed(self), None)` / `QuerySet.last` / `pop()`'s key: `self.end[1][0]` -/
+def ptrLast (s : Store) : Option Nat := if s.prev 0 = 0 then none else some (s.key (s.prev 0))
+
+/-- `key in self.map` -/
+def ptrMem (k : Nat) (s : Store) : Bool := (s.map k).isSome
 
 end OSetPtr
 end Pyx
